@@ -275,7 +275,7 @@ def run_scenario(sc, seed, index, wl, keep=False):
             with open(dpath, "w") as fh:
                 fh.write("\n".join(str(x) for x in sc["decisions"]) + "\n")
             plan = Plan(sc["pseed"], "replay", faults=[sc["fault"]] if sc["fault"] else [],
-                        decisions_in=dpath)
+                        decisions_in=dpath, base_strategy=sc["strategy"])
         preexec = None
         if sc.get("fsize"):
             limit = int(sc["fsize"])
